@@ -126,9 +126,47 @@ def h_bulk_toggle(ctx, count):
     ctx.reached()
 
 
+def h_reassembled_copy(ctx, unread_then):
+    """a reassembled message waiting in the queue is a private copy too: fragments of the next message must not touch it"""
+    from circuitpython_nrf24l01.network.structs import RF24NetworkFrame
+    from vsym.core import SBytes
+    clock = fresh_env(ctx)
+    radio, net = new_net(clock, 0)
+    q, frame = net.queue, RF24NetworkFrame()
+
+    def put(origin, fid, mtype, reserved, body):
+        frame.header.from_node, frame.header.to_node, frame.header.frame_id = origin, 0, fid
+        frame.header.message_type, frame.header.reserved = mtype, reserved
+        frame.message = SBytes(body) if ctx.symbolic else bytes(body)
+        return q.enqueue(frame)
+    o1, o2 = ctx.int("origin1", 1, 0xFFF), ctx.int("origin2", 1, 0xFFF)
+    ctx.assume(o1 != o2)
+    t1, t2 = ctx.int("type1", 0, 127), ctx.int("type2", 0, 127)
+    a, b = blist(ctx.bytes("a", 4)), blist(ctx.bytes("b", 4))
+    put(o1, 7, 148, 2, a[:2])
+    put(o1, 7, 150, t1, a[2:])
+    ctx.check(len(q) == 1, "the first message is reassembled and queued")
+    put(o2, 9, 148, 2, b[:2])
+    if unread_then == "complete":
+        put(o2, 9, 150, t2, b[2:])
+    first = q.dequeue()
+    ctx.check(first is not None and s_and(first.header.from_node == o1, first.header.message_type == t1,
+                                          len(first.message) == 4 and bytes_eq(first.message, a)),
+              "the queued message keeps the fields and bytes it had when it was accepted")
+    if unread_then == "complete":
+        second = q.dequeue()
+        ctx.check(second is not None and s_and(second.header.from_node == o2, second.header.message_type == t2,
+                                               len(second.message) == 4 and bytes_eq(second.message, b)),
+                  "and the next message follows it, once")
+    ctx.check(q.dequeue() is None, "nothing else")
+    ctx.reached()
+
+
 def jobs(tier):
     out = []
     depth = 4 if tier == "quick" else 6
+    for u in ("first-only", "complete"):
+        out.append(Job("reassembled-frames-are-private-copies", h_reassembled_copy, dict(unread_then=u), cost=3))
     for count in ((8, 10) if tier == "quick" else (7, 8, 9, 10, 11)):
         out.append(Job("bulk-toggle", h_bulk_toggle, dict(count=count), cost=3))
     for a in OPS:
@@ -149,7 +187,7 @@ META = {
                         "(0..255 except 148-150), reserved and 0 or 2 symbolic message bytes; one frame object (with a bytearray message that is scribbled over after every enqueue) reused; plus 8-10 "
                         "frames under max_queue_size 7..10 moved through two fragmentation toggles",
                "thorough": "all 5^6 histories of length 6"},
-    "outside": ["fragment types 148-150 (C06)", "field values outside the wire range (the statement's 'fields they had when "
+    "outside": ["fragment types 148-150 in the history obligation (C06; one dedicated obligation checks that a reassembled message waiting in the queue is a private copy)", "field values outside the wire range (the statement's 'fields they had when "
                 "enqueued')", "histories longer than 6", "max_queue_size > 10 or negative",
                 "eviction when max_queue_size is lowered below the current length (not required by the statement as read here: "
                 "only acceptance is bounded)"],
